@@ -91,6 +91,12 @@ def check(case):
                 continue
             ref = (p[0]["n"], None)
             run.do_order(pi, op[2], (op[3], None), ref, what)
+        elif kind == "refmissing":
+            # the field exists, the reference does not: KeyError, and nothing has moved
+            if run.occ(p, "Nope") or not p or op[2] not in ("before", "after"):
+                continue
+            key = resolve_key(run, p, op[3])
+            run.do_order(pi, op[2], key, ("Nope", None), what)
         elif kind == "sort":
             run.do_sort(pi, op[2] if op[2] in SORT_KEYS else "default")
             run.labels.add("sort")
@@ -144,6 +150,7 @@ op = st.one_of(
     st.tuples(st.just("del"), pidx, key),
     st.tuples(st.just("ordermissing"), pidx, st.sampled_from(["first", "last", "before", "after"]),
               st.just("Nope")),
+    st.tuples(st.just("refmissing"), pidx, st.sampled_from(["before", "after"]), key),
     st.tuples(st.just("append"), paraspec),
     st.tuples(st.just("insert"), st.integers(0, 5), paraspec),
 )
@@ -171,6 +178,8 @@ def small_cases():
                 pi = len(paras) - 1 if not two else 0
                 keys = [[ni, occ, 0] for ni in range(3) for occ in (None, 0, 1)]
                 for k in keys:
+                    yield {"doc": d, "ops": [["refmissing", pi, "before", k], ["last", pi, k]]}
+                    yield {"doc": d, "ops": [["refmissing", pi, "after", k], ["sort", pi, "default"]]}
                     yield {"doc": d, "ops": [["first", pi, k]]}
                     yield {"doc": d, "ops": [["last", pi, k]]}
                     yield {"doc": d, "ops": [["del", pi, k]]}
